@@ -36,8 +36,11 @@ pub fn numeric_slots(img: &Value) -> Vec<Slot> {
 }
 
 pub const ALLOC_FACTOR: u64 = 256;
+/// CPU budget of one mutated proof: 40x the honest run of the same proof, at least 2 s (process CPU time)
+pub const CPU_FACTOR: u64 = 40;
+pub const CPU_FLOOR_MS: u64 = 2000;
 
-pub fn check(env: &Env, honest_alloc: &[u64], c: &Case) -> Outcome {
+pub fn check(env: &Env, honest_alloc: &[u64], honest_cpu_ms: &[u64], c: &Case) -> Outcome {
     let f = fp(c);
     if env.bases.is_empty() {
         return Outcome::trivial("skip/no_base");
@@ -82,7 +85,9 @@ pub fn check(env: &Env, honest_alloc: &[u64], c: &Case) -> Outcome {
         .unwrap_or(false)
     });
     let a0 = crate::allocated();
+    let c0 = process_cpu_ms();
     let r = run_entry(layout, &p, 0);
+    let dc = process_cpu_ms() - c0;
     let da = crate::allocated() - a0;
     let class = format!("{}/{}", group, if reaches { "passes_validation" } else { "stopped_by_validation" });
     let limit = honest_alloc[bi].saturating_mul(ALLOC_FACTOR).max(1 << 26);
@@ -92,6 +97,15 @@ pub fn check(env: &Env, honest_alloc: &[u64], c: &Case) -> Outcome {
             f,
             format!("c17:allocation:{}", group),
             format!("{}: verifier requested {} bytes (honest run: {}; limit {}x) after [{}]", name, da, honest_alloc[bi], ALLOC_FACTOR, desc.join("; ")),
+        );
+    }
+    let cpu_limit = (honest_cpu_ms[bi] * CPU_FACTOR).max(CPU_FLOOR_MS);
+    if dc > cpu_limit {
+        return Outcome::failed(
+            class,
+            f,
+            format!("c17:cpu_time:{}", group),
+            format!("{}: verification took {} ms of CPU (honest run: {} ms; limit {}x, at least {} ms) after [{}]", name, dc, honest_cpu_ms[bi], CPU_FACTOR, CPU_FLOOR_MS, desc.join("; ")),
         );
     }
     let _ = r; // Err / Ok / panic are all fine here; hangs and memory blow-ups are caught by the process limits
@@ -114,36 +128,38 @@ pub const LIMITS: Limits = Limits { cpu_s_per_case: 20, address_space_bytes: 3 <
 pub fn run(ctx: &Ctx) -> Report {
     let mut rep = Report::new();
     run_children(ctx, "c17", ctx.threads.max(1), LIMITS, &mut rep);
-    rep.extra.insert("limits".into(), json!({"cpu_s_per_case": LIMITS.cpu_s_per_case, "address_space_bytes": LIMITS.address_space_bytes, "allocation_factor_vs_honest": ALLOC_FACTOR}));
+    rep.extra.insert("limits".into(), json!({"cpu_s_per_case": LIMITS.cpu_s_per_case, "address_space_bytes": LIMITS.address_space_bytes, "allocation_factor_vs_honest": ALLOC_FACTOR, "cpu_factor_vs_honest": CPU_FACTOR, "cpu_floor_ms": CPU_FLOOR_MS}));
     rep
 }
 
-fn honest_allocs(e: &Env) -> Vec<u64> {
-    e.bases
-        .iter()
-        .map(|(_, layout, img)| {
-            let p = from_image(img).expect("base");
-            let a0 = crate::allocated();
-            let _ = run_entry(layout, &p, 0);
-            crate::allocated() - a0
-        })
-        .collect()
+fn honest_allocs(e: &Env) -> (Vec<u64>, Vec<u64>) {
+    let mut a = Vec::new();
+    let mut c = Vec::new();
+    for (_, layout, img) in e.bases.iter() {
+        let p = from_image(img).expect("base");
+        let a0 = crate::allocated();
+        let c0 = process_cpu_ms();
+        let _ = run_entry(layout, &p, 0);
+        a.push(crate::allocated() - a0);
+        c.push((process_cpu_ms() - c0).max(20));
+    }
+    (a, c)
 }
 
 pub fn child(ctx: &Ctx, ca: &ChildArgs, _label: &str) {
     let mut rep = Report::new();
     let e = env(ctx, &mut rep);
-    let h = honest_allocs(&e);
-    pt_run_child(ctx, "c17", ctx.n(3000, 120000), ca, strategy(), |c| check(&e, &h, c));
+    let (h, hc) = honest_allocs(&e);
+    pt_run_child(ctx, "c17", ctx.n(3000, 120000), ca, strategy(), |c| check(&e, &h, &hc, c));
 }
 
 pub fn replay(ctx: &Ctx, v: &Value) -> Result<Outcome, String> {
     // replays run in-process under a CPU watchdog: a hang shows as exit code 97 of this process
     let mut rep = Report::new();
     let e = env(ctx, &mut rep);
-    let h = honest_allocs(&e);
+    let (h, hc) = honest_allocs(&e);
     let c: Case = serde_json::from_value(v["case"].clone()).map_err(|e| e.to_string())?;
-    Ok(check(&e, &h, &c))
+    Ok(check(&e, &h, &hc, &c))
 }
 
-pub const RULE: &str = "accepted proofs of the build (one per layout family, preferring masked-hash proofs, plus the fixture); one numeric slot (any configuration number incl. nested table/vector/FRI configs and per-layer lists, public-input scalar, dynamic parameter, segment bound, PoW bits, nonce) set to an extreme (0,1,2,2^12,2^16,2^20,2^40,2^64-1,2^64,2^128,p-2,p-1), in 25% of cases a second slot too, plus 0..2 consistent re-declarations of dependent fields (query count, layer count with resized vectors, trace exponent with all heights, last-layer bound with coefficients, friendly count, dynamic column counts, blow-up with heights); StarkProof::verify is run with the security level derived from the config (as the CLI does) in child processes with a 20 s per-case CPU-time watchdog (honest run: ~0.05 s), a 3 GiB address-space limit and a counting allocator (violation if bytes requested exceed 256x the honest run of the same proof). Non-trivial = the mutated proof passes StarkConfig::validate and validate_public_input (the value reaches the loops); class = slot group x reaches; distinct by case hash";
+pub const RULE: &str = "accepted proofs of the build (one per layout family, preferring masked-hash proofs, plus the fixture); one numeric slot (any configuration number incl. nested table/vector/FRI configs and per-layer lists, public-input scalar, dynamic parameter, segment bound, PoW bits, nonce) set to an extreme (0,1,2,2^12,2^16,2^20,2^40,2^64-1,2^64,2^128,p-2,p-1), in 25% of cases a second slot too, plus 0..2 consistent re-declarations of dependent fields (query count, layer count with resized vectors, trace exponent with all heights, last-layer bound with coefficients, friendly count, dynamic column counts, blow-up with heights); StarkProof::verify is run with the security level derived from the config (as the CLI does) in child processes with a 20 s per-case CPU-time watchdog (honest run: ~0.05 s), a 3 GiB address-space limit, a counting allocator (violation if bytes requested exceed 256x the honest run of the same proof) and a per-case CPU budget of 40x the honest run of the same proof (at least 2 s; process CPU time, so machine load cannot flip a verdict). Non-trivial = the mutated proof passes StarkConfig::validate and validate_public_input (the value reaches the loops); class = slot group x reaches; distinct by case hash";
